@@ -569,6 +569,39 @@ func c04Windows(c *core.Ctx) {
 		}
 		k.Count("nested_other_swept", 1)
 	})
+	// text-shaped bodies: FQDN / RFC 822 / NAI edge cases under every ID type, as EAP identities and network names
+	c.Family("win-names", 64, func(k *core.Case) {
+		e := env(k)
+		for i := 0; i < 40; i++ {
+			name := gen.Name(k.R)
+			if len(name) == 0 || len(name) > 300 {
+				continue
+			}
+			for _, t := range []byte{2, 3, 1, 5, 11, 9} {
+				kind := uint8(abs.PIDi)
+				if i%2 == 1 {
+					kind = abs.PIDr
+				}
+				c04Body(k, e, kind, append([]byte{t, 0, 0, 0}, name...), fmt.Sprintf("names/id-type=%d", t), i%8 == 0 && t <= 3)
+			}
+			pkt := append([]byte{byte(1 + i%2), 7, 0, byte(5 + len(name)), 1}, name...)
+			pkt[2], pkt[3] = byte(len(pkt)>>8), byte(len(pkt))
+			c04Body(k, e, abs.PEAP, pkt, "names/eap-identity", false)
+			// AT_KDF_INPUT carrying the name
+			words := (4 + len(name) + 3) / 4
+			if words <= 255 {
+				at := append([]byte{23, byte(words), byte(len(name) >> 8), byte(len(name))}, name...)
+				for len(at) < words*4 {
+					at = append(at, 0)
+				}
+				body := append([]byte{50, 1, 0, 0}, at...)
+				ep := append([]byte{1, 9, 0, 0}, body...)
+				ep[2], ep[3] = byte(len(ep)>>8), byte(len(ep))
+				c04Body(k, e, abs.PEAP, ep, "names/at-kdf-input", false)
+			}
+		}
+		k.Count("name_edge_cases_decoded", 1)
+	})
 	// KE / ID / AUTH / CERT / CERTREQ / Nonce / Vendor / SK: remaining 0..8
 	c.Family("win-simple", 9*10, func(k *core.Case) {
 		e := env(k)
@@ -1097,7 +1130,7 @@ func c04(c *core.Ctx) {
 		c.Count("hook_hits_"+s, int(atomic.LoadInt64(&siteHits[i])))
 	}
 	if variant() == "plain" {
-		c.Require("one_key_object_served_all_datagrams", "nested_notify_types_swept", "nested_other_swept", "hook_hits_message.container.decode", "hook_hits_message.sa.proposal", "hook_hits_message.sa.transform", "hook_hits_message.delete.spi",
+		c.Require("name_edge_cases_decoded", "one_key_object_served_all_datagrams", "nested_notify_types_swept", "nested_other_swept", "hook_hits_message.container.decode", "hook_hits_message.sa.proposal", "hook_hits_message.sa.transform", "hook_hits_message.delete.spi",
 			"hook_hits_message.cp.attribute", "hook_hits_message.tsi.selector", "hook_hits_message.tsr.selector", "hook_hits_eap.akaprime.attribute", "hook_hits_ike.decrypt.verified")
 	}
 }
